@@ -1,7 +1,12 @@
 #!/bin/sh
-# MANIFEST.setup_cmd: offline build of the whole harness against /repo (hooks on).
+# MANIFEST.setup_cmd: offline build of the harness binaries of every registered check against /repo (hooks on).
 set -e
 cd /verif/harness
 [ -f Cargo.lock ] || cp /repo/Cargo.lock Cargo.lock
-CARGO_NET_OFFLINE=true CARGO_TARGET_DIR=/verif/target cargo build --offline --bins 2>&1 | tail -5
+BINS="--bin vmerge"
+for id in $(cat /verif/lib/ready.txt); do
+  b=$(python3 -c "import json,sys;print(json.load(open('/verif/lib/props/%s.json'%sys.argv[1]))['bin'])" "$id")
+  BINS="$BINS --bin $b"
+done
+CARGO_NET_OFFLINE=true CARGO_TARGET_DIR=/verif/target cargo build --offline $BINS 2>&1 | tail -5
 echo "setup done"
